@@ -92,7 +92,7 @@ func checkResume(r *Run, twinOuts string, spec []CrashSpec) []Violation {
 			continue
 		}
 		for _, k := range r.Jobs {
-			if k.Inc > j.Inc && k.Key() == j.Key() && k.Phase == j.Phase {
+			if k.Inc > j.Inc && k.Id() == j.Id() {
 				// did the job manager's _queued_locally marker of the completed job
 				// still exist when mrp was interrupted?
 				oracle := "completed-job-reexecuted"
@@ -114,7 +114,7 @@ func checkResume(r *Run, twinOuts string, spec []CrashSpec) []Violation {
 	// (5) within one incarnation nothing runs twice
 	seen := map[string]bool{}
 	for _, j := range r.Jobs {
-		k := fmt.Sprintf("%d|%s|%s", j.Inc, j.Key(), j.Phase)
+		k := fmt.Sprintf("%d|%s", j.Inc, j.Id())
 		if seen[k] {
 			add("executed-twice-in-incarnation", fmt.Sprintf("after %s: %s (%s) executed twice by incarnation %d", desc, j.Key(), j.Phase, j.Inc))
 		}
